@@ -371,8 +371,19 @@ def _membership():
     def gen(rng):
         c = consensus_cfg(rng, nmin=2)
         pi = rng.choice([0.05, 0.1, 0.3])
-        c.update(pi=pi, st=round(pi * rng.choice([0.5, 2.0, 5.0]), 6), k=rng.randint(0, 3), phi=rng.choice([1.0, 8.0]))
+        # suspicion timeout shorter / longer than the ack wait (half a probe interval) and than the probe interval
+        c.update(pi=pi, st=round(pi * rng.choice([0.1, 0.25, 0.4, 0.5, 2.0, 5.0]), 6), k=rng.randint(0, 3), phi=rng.choice([1.0, 8.0]))
         c["arr"] = []
+        n = c["net"]["n"]
+        if n >= 3 and rng.random() < 0.6:
+            # a member that stops answering probes for good (crash) or for a while (pause / partition from everybody)
+            victim = rng.randrange(n)
+            start = round(rng.uniform(0.0, 0.8), 4)
+            kind = rng.choice(["crash", "crash", "pause"])
+            c["net"]["faults"] = c["net"]["faults"] + [{"kind": kind, "node": victim, "start": start,
+                                                        "end": None if kind == "crash" else round(start + 1.0, 4)}]
+            c["k"] = rng.randint(1, 3)
+            c["tags"] = ["dead_member"]
         return c
 
     def build(z, c):
@@ -458,8 +469,15 @@ def repl_cfg(rng, nmin=2, nmax=4):
     n = rng.randint(nmin, nmax)
     c = ops_cfg(rng, ["w", "w", "r"], n=rng.randint(5, 24), nkeys=rng.randint(1, 4))
     c.update(net=gen_net(rng, n, 3.0, scale=rng.choice([0.002, 0.01]), kinds=("partition", "loss", "latency", "pause")),
-             wlat=lat(rng, hi=0.01), rlat=lat(rng, hi=0.005))
+             wlat=lat(rng, hi=0.01), rlat=lat(rng, hi=0.005),
+             # per-node store write latencies (replicas that acknowledge at different instants)
+             wlats=rng.choice([None, [lat(rng, hi=0.02) for _ in range(n)]]))
     return c
+
+
+def _wl(c, i):
+    w = c.get("wlats")
+    return check_num(w[i % len(w)]) if w else check_num(c["wlat"])
 
 
 def repl_feed(z, c, nodes, pick):
@@ -481,8 +499,12 @@ def repl_feed(z, c, nodes, pick):
 @driver("PrimaryBackup", ["PrimaryNode", "BackupNode"])
 def _pb():
     def gen(rng):
-        c = repl_cfg(rng)
-        c.update(mode=rng.choice(["ASYNC", "SEMI_SYNC", "SYNC"]))
+        c = repl_cfg(rng, nmin=2, nmax=4)
+        c.update(mode=rng.choice(["ASYNC", "SEMI_SYNC", "SYNC", "SYNC"]))
+        if c["mode"] == "SYNC" and rng.random() < 0.7:
+            # at least two backups that acknowledge at different instants
+            c["net"]["n"] = max(c["net"]["n"], 3)
+            c["wlats"] = [0.001 * (1 + 2 * i) for i in range(c["net"]["n"])]
         return c
 
     def build(z, c):
@@ -490,7 +512,7 @@ def _pb():
         if not 2 <= n <= 6:
             raise InvalidScenario("n")
         names = ["primary"] + [f"backup{i}" for i in range(1, n)]
-        stores = [z.add(KVStore(f"{nm}_store", read_latency=check_num(c["rlat"]), write_latency=check_num(c["wlat"]))) for nm in names]
+        stores = [z.add(KVStore(f"{nm}_store", read_latency=check_num(c["rlat"]), write_latency=_wl(c, i))) for i, nm in enumerate(names)]
         holder = {}
 
         def factory(nm, net):
@@ -520,7 +542,7 @@ def _chain():
         if not 2 <= n <= 6:
             raise InvalidScenario("n")
         names = [f"c{i}" for i in range(n)]
-        stores = [z.add(KVStore(f"{nm}_store", read_latency=check_num(c["rlat"]), write_latency=check_num(c["wlat"]))) for nm in names]
+        stores = [z.add(KVStore(f"{nm}_store", read_latency=check_num(c["rlat"]), write_latency=_wl(c, i))) for i, nm in enumerate(names)]
         check_net(c["net"])
         net, links = chaosnet.build_mesh("net", [_N(nm) for nm in names], int(z.sc.get("net_seed", 1)), c["net"]["profile"])
         it = iter(stores)
@@ -550,7 +572,7 @@ def _ml():
         if not 2 <= n <= 6:
             raise InvalidScenario("n")
         names = [f"l{i}" for i in range(n)]
-        stores = [z.add(KVStore(f"{nm}_store", read_latency=check_num(c["rlat"]), write_latency=check_num(c["wlat"]))) for nm in names]
+        stores = [z.add(KVStore(f"{nm}_store", read_latency=check_num(c["rlat"]), write_latency=_wl(c, i))) for i, nm in enumerate(names)]
         res = {"lww": LastWriterWins, "vc": VectorClockMerge}[c["resolver"]]
         net, nodes, _ = mesh(z, names, c["net"],
                              lambda nm, net: LeaderNode(nm, store=stores[names.index(nm)], network=net, conflict_resolver=res(),
